@@ -900,7 +900,7 @@ noncomputable def scaleC (h dA dB : ℕ) (c : ℕ) : ℂ :=
   ((if c = 1 then 1 else if c = 2 then 1 / Real.sqrt h else if c = 3 then 1 / Real.sqrt dA
     else if c = 4 then 1 / Real.sqrt 2 else if c = 5 then 1 / Real.sqrt dB else 0 : ℝ) : ℂ)
 
-theorem inv_sqrt_mul_self {x : ℝ} (hx : 0 < x) : 1 / Real.sqrt x * (1 / Real.sqrt x) * x = 1 := by
+theorem roots_inv_sqrt_mul_self {x : ℝ} (hx : 0 < x) : 1 / Real.sqrt x * (1 / Real.sqrt x) * x = 1 := by
   have h := Real.mul_self_sqrt (le_of_lt hx)
   have h0 : Real.sqrt x ≠ 0 := (Real.sqrt_pos.2 hx).ne'
   field_simp
@@ -908,16 +908,16 @@ theorem inv_sqrt_mul_self {x : ℝ} (hx : 0 < x) : 1 / Real.sqrt x * (1 / Real.s
 
 theorem scaleData_scaleC {h dA dB : ℕ} (hh : 0 < h) (hA : 0 < dA) (hB : 0 < dB) : ScaleData (scaleC h dA dB) h dA dB := by
   refine ⟨fun c => Complex.conj_ofReal _, by simp [scaleC], ?_, ?_, ?_, ?_⟩
-  · have := inv_sqrt_mul_self (x := (h : ℝ)) (by exact_mod_cast hh)
+  · have := roots_inv_sqrt_mul_self (x := (h : ℝ)) (by exact_mod_cast hh)
     simp only [one_div] at this
     simp only [scaleC]; norm_num; exact_mod_cast this
-  · have := inv_sqrt_mul_self (x := (dA : ℝ)) (by exact_mod_cast hA)
+  · have := roots_inv_sqrt_mul_self (x := (dA : ℝ)) (by exact_mod_cast hA)
     simp only [one_div] at this
     simp only [scaleC]; norm_num; exact_mod_cast this
-  · have := inv_sqrt_mul_self (x := (dB : ℝ)) (by exact_mod_cast hB)
+  · have := roots_inv_sqrt_mul_self (x := (dB : ℝ)) (by exact_mod_cast hB)
     simp only [one_div] at this
     simp only [scaleC]; norm_num; exact_mod_cast this
-  · have := inv_sqrt_mul_self (x := (2 : ℝ)) (by norm_num)
+  · have := roots_inv_sqrt_mul_self (x := (2 : ℝ)) (by norm_num)
     simp only [one_div] at this
     simp only [scaleC]; norm_num; exact_mod_cast this
 
@@ -975,7 +975,7 @@ theorem quadScale_scaleQ (h4 : p % 4 = 1) : QuadScale (scaleQ p) (rootC p) p (we
       nlinarith [h]
     exact_mod_cast this
   · rw [e7]
-    have := inv_sqrt_mul_self hD
+    have := roots_inv_sqrt_mul_self hD
     exact_mod_cast this
   · have hs := sigmaC_real (p := p) h4
     show (weightN p : ℂ) = -sigmaC p ∨ (weightN p : ℂ) = 1 + sigmaC p
